@@ -79,6 +79,30 @@ def check_C02(tier, seed):
         toks = run_hx(["tokens"], lines)
         m_tok = run_mx(["parse-tokens"], toks)
         m_full = run_mx(["events", "str"], lines)
+        # an alternating peek/next history run well past the end: the events handed out by next must be the sentence,
+        # followed by nothing
+        hl = ["%s#%s" % ("PN" * (len(split_line(impl["str"][i])[0]) + 3), lines[i]) for i in range(len(lines))]
+        hist = run_hx(["hist", "str"], hl)
+        impl["peek-next"] = []
+        for i, h in enumerate(hist):
+            parts = h.split(";") if h else []
+            nexts = parts[1::2]
+            evs_n = [t for t in nexts if t != "NONE" and not t.startswith("ERR@")]
+            fin = "OK"
+            for t in nexts:
+                if t.startswith("ERR@"):
+                    fin = t
+            if parts and parts[-1].startswith("ERR@"):
+                fin = parts[-1]
+            # nothing may follow StreamEnd: every next after it must be NONE
+            after = False
+            extra = False
+            for t in nexts:
+                if after and t != "NONE":
+                    extra = True
+                if t.startswith("SE@"):
+                    after = True
+            impl["peek-next"].append(";".join(evs_n) + "|" + ("EXTRA-AFTER-STREAM-END" if extra else fin))
         verd = {b: run_mx(["grammar"], impl[b]) for b in impl}
         errs = {}
         for i, s in enumerate(cases):
@@ -442,6 +466,15 @@ def check_C01(tier, seed):
                 if "PANIC" in fin or "TIMEOUT" in fin or "CRASH" in fin or "SPIN" in fin:
                     res.add_violation("%s panics / aborts / does not terminate" % k, dict(input=s[:4000], codepoints=lines[i][:20000], api=k),
                                       impl=o[-300:])
+            ph = runs["peeknext/str"][i].split(";")
+            seen_end = False
+            for j, t in enumerate(ph):
+                if seen_end and t != "NONE":
+                    res.add_violation("peek/next keep returning events after StreamEnd was consumed: a `while let Some(_) = p.peek()` consumer never stops",
+                                      dict(input=s[:4000], codepoints=lines[i][:20000], history="PNPPN x12"), impl=";".join(ph[-6:])[-300:])
+                    break
+                if t.startswith("SE@") and "PNPPN"[j % 5] == "N":
+                    seen_end = True
             w = work[i].split("|")
             if len(w) == 4 and w[0].isdigit():
                 n, calls = int(w[0]), int(w[1])
